@@ -89,7 +89,7 @@ def _angular_order_ok(center, pts) -> bool:
 
 @st.composite
 def star_curve(draw, nk="int", center=(0.0, 0.0), rlo=6.0, rhi=14.0, nseg=(3, 7),
-               degrees=(1,), cw=False, snap=None):
+               degrees=(1,), cw=False, snap=None, container=False):
     """
     closed simple curve, star-shaped about `center`: all control points are
     in strictly increasing angular order about the centre, hence the angle
@@ -107,7 +107,13 @@ def star_curve(draw, nk="int", center=(0.0, 0.0), rlo=6.0, rhi=14.0, nseg=(3, 7)
     if m < 3:
         degs[0] += 3 - m
         m = 3
-    lo, hi = (0.3, 0.7) if m <= 4 else (0.15, 0.85)
+    if container:
+        # at least 6 control points with bounded angular gaps (<= 84 deg):
+        # the curve then contains the disc of radius 0.74 * rlo
+        while m < 6:
+            degs.append(1)
+            m += 1
+    lo, hi = (0.3, 0.7) if (m <= 4 or container) else (0.15, 0.85)
     jit = [draw(st.floats(lo, hi)) for _ in range(m)]
     rad = [draw(st.floats(0.0, 1.0)) for _ in range(m)]
     phase = draw(st.floats(0.0, 1.0))
@@ -122,7 +128,7 @@ def star_curve(draw, nk="int", center=(0.0, 0.0), rlo=6.0, rhi=14.0, nseg=(3, 7)
         r = rlo + (rhi - rlo) * rad[k]
         if interior[k]:
             # push away from the chord: alternate outside / inside
-            r = r * (1.35 if rad[k] >= 0.5 else 0.6)
+            r = r * (1.35 if (rad[k] >= 0.5 or container) else 0.6)
         p = (center[0] + r * math.cos(ang), center[1] + r * math.sin(ang))
         pts.append(fn(p))
     assume(_angular_order_ok(center, pts))
@@ -249,7 +255,13 @@ SLOTS4 = [(0.5, 0.5), (-0.5, 0.5), (-0.5, -0.5), (0.5, -0.5)]
 
 
 def base_radius(nk):
-    return 40.0 if nk == "int" else 10.0
+    return 60.0 if nk in ("int", "mixed") else 10.0
+
+
+def _valid(spec):
+    from . import lib
+
+    return lib.spec_valid(spec)
 
 
 @st.composite
@@ -273,20 +285,23 @@ def connected_spec(draw, nk="int", degrees=(1,), center=(0.0, 0.0), R=None, boun
     slots = draw(st.permutations(SLOTS4))[:k]
     curves = []
     if bounded:
-        curves.append(draw(star_curve(nk, center, 0.75 * R, R, (3, 7), degrees, False, snap)))
+        curves.append(draw(star_curve(nk, center, 0.75 * R, R, (3, 8), degrees, False, snap, container=True)))
+        rho = 0.62 * 0.75 * R  # radius of a disc certainly inside the outer curve
         if k == 1 and draw(st.booleans()):
             slots = [(0.0, 0.0)]
-            hr = (0.2 * R, 0.55 * R)
+            hr = (0.3 * rho, 0.9 * rho)
         else:
-            hr = (0.09 * R, 0.18 * R)
+            hr = (0.15 * rho, 0.3 * rho)
         for (sx, sy) in slots:
-            hc = (center[0] + sx * 0.75 * R * 0.9, center[1] + sy * 0.75 * R * 0.9)
+            hc = (center[0] + sx * 0.78 * rho, center[1] + sy * 0.78 * rho)
             curves.append(draw(star_curve(nk, hc, hr[0], hr[1], (3, 5), degrees, True, snap)))
     else:
         for (sx, sy) in slots:
             hc = (center[0] + sx * R, center[1] + sy * R)
             curves.append(draw(star_curve(nk, hc, 0.15 * R, 0.4 * R, (3, 6), degrees, True, snap)))
-    return {"k": "connected", "curves": curves}
+    spec = {"k": "connected", "curves": curves}
+    assume(_valid(spec))
+    return spec
 
 
 @st.composite
@@ -308,12 +323,15 @@ def disjoint_spec(draw, nk="int", degrees=(1,), center=(0.0, 0.0), R=None, bound
             else:
                 parts.append(draw(simple_spec(nk, degrees, pc, 0.42 * R, False)))
     else:
-        outer = draw(star_curve(nk, center, 0.8 * R, R, (3, 7), degrees, True))
+        outer = draw(star_curve(nk, center, 0.8 * R, R, (3, 7), degrees, True, container=True))
         parts.append({"k": "simple", "curve": outer})
+        rho = 0.62 * 0.8 * R
         for (sx, sy) in slots[: k - 1]:
-            pc = (center[0] + sx * 0.65 * R, center[1] + sy * 0.65 * R)
-            parts.append(draw(simple_spec(nk, degrees, pc, 0.2 * R, False)))
-    return {"k": "disjoint", "parts": parts}
+            pc = (center[0] + sx * 0.78 * rho, center[1] + sy * 0.78 * rho)
+            parts.append(draw(simple_spec(nk, degrees, pc, 0.3 * rho, False)))
+    spec = {"k": "disjoint", "parts": parts}
+    assume(_valid(spec))
+    return spec
 
 
 KINDS = ["empty", "whole", "simple+", "simple-", "connected+", "connected-", "disjoint+", "disjoint-"]
